@@ -3,6 +3,7 @@ import UberjobModel.Lemmas.PhysLoop
 import UberjobModel.Lemmas.PhysChain
 import UberjobModel.Props.C01
 import UberjobModel.Props.C04
+import UberjobModel.Lemmas.ExecFinal
 /-!
 # C09 — rebuilt stored values are written, then read back, before downstream use
 
@@ -346,6 +347,50 @@ theorem C09_phys_acyclic {P : Input} (hP : P.WF) :
 theorem C09_source_shape : Gen.Stale.facts.pruneLiteralShape = true ∧
     (∀ m n, Gen.Stale.keepLiteral m n = decide (m * n > m + n)) := by
   refine ⟨by decide, fun m n => rfl⟩
+
+/-! ### What a node reads does not depend on WHEN it reads it
+
+`Exec.execOrder` applies the effect of a node when the engine completes it.  The real code reads a call's arguments when
+the call begins and a store somewhere between the begin and the end of its read node.  The three theorems below are about
+EVERY reachable state in which the node has begun (completed or not): what it would read there is already its final,
+from-scratch value — the writer of whatever a node reads completed before the node began, and nothing else writes it.  So
+the moment of the access between `begin` and `finOk` is irrelevant, which is what collapsing a node's effect to its
+completion assumes. -/
+
+open Uberjob.Exec in
+/-- A begun read-back node finds the from-scratch value of its stored value in the store, at every moment from its
+    beginning on (for an out-of-date stored value: its write has completed and nothing else writes that store). -/
+theorem C09_read_stable {P : Input} {w0 : Cache.World} {F : Option Int} {c0 : Int} (S : Setup P w0 F c0)
+    {cfg : Engine.Cfg} {s : Engine.St} (h : Engine.Reach (engineGraph P) cfg s) {u : Nat}
+    (hb : code (.read u) ∈ s.begun) :
+    ((execOrder P (initX w0 c0) s.okd).w.content u).getD (.missing u) = Cache.FS P.toLPlan w0 u :=
+  read_value S h (xinv_reach S h) hb
+
+open Uberjob.Exec in
+/-- A begun user call finds the from-scratch values of its arguments in the result slots of its argument nodes — the
+    read-back node of a stored argument (never the in-memory result of the argument's own call), the call itself for an
+    unstored one — in argument order. -/
+theorem C09_args_stable {P : Input} {w0 : Cache.World} {F : Option Int} {c0 : Int} (S : Setup P w0 F c0)
+    {cfg : Engine.Cfg} {s : Engine.St} (h : Engine.Reach (engineGraph P) cfg s) {j : Nat}
+    (hb : code (.orig j) ∈ s.begun) (hs : P.regOf j ≠ some true) :
+    (argSrcs (physFinal P) (.orig j)) = (P.toLPlan.args j).map (argNode P) ∧
+    Cache.V.app j ((argSrcs (physFinal P) (.orig j)).map ((execOrder P (initX w0 c0) s.okd).get P)) =
+      Cache.FS P.toLPlan w0 j := by
+  have I := xinv_reach S h
+  exact ⟨by rw [argSrcs_final S.wf (begun_built S h I hb).1, argSrcs_built], orig_value S h I hb hs⟩
+
+open Uberjob.Exec in
+/-- A begun write node finds the from-scratch value of its stored value in the slot of the value's own call, and that is
+    also what the call would compute from what its arguments give RIGHT NOW (`rawNow`): nothing upstream is out of date
+    any more. -/
+theorem C09_write_input_stable {P : Input} {w0 : Cache.World} {F : Option Int} {c0 : Int} (S : Setup P w0 F c0)
+    {cfg : Engine.Cfg} {s : Engine.St} (h : Engine.Reach (engineGraph P) cfg s) {i : Nat}
+    (hb : code (.write i) ∈ s.begun) :
+    (execOrder P (initX w0 c0) s.okd).get P (.orig i) = Cache.FS P.toLPlan w0 i ∧
+    Cache.rawNow P.toLPlan (execOrder P (initX w0 c0) s.okd).w i = Cache.FS P.toLPlan w0 i := by
+  have I := xinv_reach S h
+  obtain ⟨hri, hst⟩ := write_node_reg S.wf (begun_built S h I hb).2
+  exact ⟨write_arg_value S h I hb hri hst, rawNow_value S h I hb hri⟩
 
 /-! ### Non-vacuity -/
 
